@@ -19,7 +19,7 @@ ITEMS = ["range pattern shape (^bytes=(\\d*)-(\\d*)$, re.ASCII, findall()[0])", 
          "tail_count (file_size - start)", "range_count (min(end or file_size, file_size) - start)",
          "unsat_test (start >= file_size)", "Content-Range formats", "if-range test (file_mtime <= ifrange)",
          "status codes 206/304/403/404/412/416", "ENCODING_EXTENSIONS order", "_unquote_path_safe replacements",
-         "sandbox fixed-point check (file_path.resolve() != file_path -> ValueError)", "zero-count shortcut (count == 0)", "fallback loop guard (count <= 0) and min(chunk_size, count)"]
+         "sandbox per-component symlink check (for part in rel_path.parts: probe.is_symlink() -> ValueError)", "zero-count shortcut (count == 0)", "fallback loop guard (count <= 0) and min(chunk_size, count)"]
 
 WR = "aiohttp/web_request.py"
 FR = "aiohttp/web_fileresponse.py"
@@ -419,12 +419,19 @@ def _dispatcher_shape():
                   _stmt("file_path = normalized_path.resolve()")]:
         raise TranslatorError("_resolve_path_to_response: follow branch is not normpath / relative_to / resolve")
     nf = t0.body[0].orelse
-    if len(nf) != 3 or nofollow[:2] != [_stmt("file_path = unresolved_path.resolve()"), _stmt("file_path.relative_to(self._directory)")]:
-        raise TranslatorError("_resolve_path_to_response: sandbox branch is not resolve / relative_to(self._directory) / fixed-point check")
-    # fix 706b3e0: the resolved path must be a fixed point of resolve()
-    if not (isinstance(nf[2], ast.If) and _dump(nf[2].test) == _expr("file_path.resolve() != file_path")):
-        raise TranslatorError("_resolve_path_to_response: sandbox branch lacks `if file_path.resolve() != file_path:`")
-    _only_raises(nf[2])
+    # fix 6ac5763: resolve, rel_path = relative_to(root), probe = root, for part in rel_path.parts: probe /= part; is_symlink -> ValueError
+    want_head = [_stmt("file_path = unresolved_path.resolve()"), _stmt("rel_path = file_path.relative_to(self._directory)"),
+                 _stmt("probe = self._directory")]
+    if len(nf) != 4 or nofollow[:3] != want_head:
+        raise TranslatorError("_resolve_path_to_response: sandbox branch is not resolve / rel_path = relative_to(self._directory) / probe = self._directory / for-loop")
+    loop = nf[3]
+    if not (isinstance(loop, ast.For) and not loop.orelse and ast.unparse(loop.target) == "part" and _dump(loop.iter) == _expr("rel_path.parts")):
+        raise TranslatorError("_resolve_path_to_response: sandbox branch lacks `for part in rel_path.parts:`")
+    lb = loop.body
+    if len(lb) != 2 or _dump(lb[0]) != _stmt("probe = probe / part") or not isinstance(lb[1], ast.If) \
+            or _dump(lb[1].test) != _expr("probe.is_symlink()"):
+        raise TranslatorError("_resolve_path_to_response: loop body is not `probe = probe / part; if probe.is_symlink(): raise ValueError`")
+    _only_raises(lb[1])
     if len(t0.handlers) != 1 or _dump(t0.handlers[0].type) != _expr("(ValueError, *CIRCULAR_SYMLINK_ERROR)"):
         raise TranslatorError("_resolve_path_to_response: handler must catch (ValueError, *CIRCULAR_SYMLINK_ERROR)")
     hb = t0.handlers[0].body
